@@ -138,6 +138,7 @@ def neox_stream(ctx):
 
     class W:
         pass
+    pend_script = []
     for i in range(ctx.budget(10, 80)):
         while True:
             cfg = neoxsim.NCfg(rng)
@@ -168,10 +169,15 @@ def neox_stream(ctx):
                 ctx.fail(f'GPT-NeoX run failed: {f}', case, 'neox-run-failed')
             elif not f:
                 kfacsim.oracle_trace(ctx, wcfg, rr, key_prefix='neox-trace')
+                line = neoxsim.script_line(cfg, rr)
+                if line is not None and rep == 0:
+                    pend_script.append((case, line, [neoxsim.impl_issues(rr, r) for r in range(cfg.world)]))
             if cfg.ckpt_dir:
                 shutil.rmtree(cfg.ckpt_dir, ignore_errors=True)
         ctx.case(str(case), nontrivial=cfg.world > 1)
         ctx.count('gpt-neox')
+    # ... and exactly, operation by operation, against the projection of the Lean script (checkpoint collectives included)
+    neoxsim.compare_script(ctx, pend_script)
 
 
 def gloo_stream(ctx):
